@@ -250,11 +250,54 @@ C08_NonTrivial(i, o) == \E k \in Sh(i) : ~InSync(i, k)
 -----------------------------------------------------------------------------
 (* C03, cycle part: whenever all shards are in sync and an eligible unscraped target could not be   *)
 (* placed, the requested shard count exceeds the current one (up to the max-shard clamp)            *)
-C03(i, o) ==
+C03_Unplaced(i, o) ==
   IF (\A k \in Sh(i) : InSync(i, k)) /\ Unplaced(i, o) # {} /\ Len(o.scales) > 0
        /\ o.scales[Len(o.scales)] <= NSh(i) /\ NSh(i) < i.opts.maxShard
     THEN {[f |-> "no-scale-up-although-eligible-target-unplaced", n |-> o.scales[Len(o.scales)]]}
     ELSE {}
+
+(* C03, the cycle's part in "reaches within a bounded number of cycles": whether an overloaded shard is relieved in a   *)
+(* cycle may not depend on the order its targets are looked at.  Stated for the plainest world only, where nothing else *)
+(* of the cycle can interfere (so that the clause never asks for more than the statement): every shard in sync and      *)
+(* answering, every reported target discovered, held once and in normal state, relief enabled, and exactly one shard s   *)
+(* over a limit.  If the settled targets of s (healthy, normal, scraped HandoverScrapes times: the ones whose sizes are  *)
+(* known) that do not alone exceed a limit together are more than a whole shard may hold, and one of them fits on        *)
+(* another shard as reported, then the cycle moves something away from s.                                               *)
+PlainWorld(i) ==
+  /\ \A k \in Sh(i) : i.shards[k].mode = "ok"
+  /\ ~("noAlleviate" \in DOMAIN i.opts /\ i.opts.noAlleviate)
+  /\ \A k \in Sh(i) : \A r \in RepRecs(i, k) :
+        /\ r.t \in ActiveSet(i) /\ r.state = ""
+        /\ ~\E j \in Sh(i) \ {k} : r.t \in Reported(i, j)
+TooBigP(i, r) == r.total > i.opts.maxProc
+TooBigH(i, r) == r.series > i.opts.maxHead \/ r.total > i.opts.maxProc
+MovedAway(i, o, s) == \E t \in Reported(i, s) : \E j \in Sh(i) \ {s} : t \in New(i, o, j)
+FitsOn(i, j, r) == /\ (i.opts.maxHead = 0 \/ i.shards[j].head + r.series < i.opts.maxHead)
+                   /\ i.shards[j].proc + r.total < i.opts.maxProc
+Steady(r) == r.state = "" /\ r.health = "up" /\ r.times >= HandoverScrapes
+C03_ProcNotRelieved(i, o) ==
+  {s \in Sh(i) :
+     /\ PlainWorld(i)
+     /\ i.shards[s].proc >= i.opts.maxProc
+     /\ \A k \in Sh(i) \ {s} : i.shards[k].proc < i.opts.maxProc
+     /\ SumRecs({r \in RepRecs(i, s) : ~TooBigP(i, r) /\ Steady(r)}, "total") > i.opts.maxProc
+     /\ \E r \in RepRecs(i, s) : /\ ~TooBigP(i, r) /\ r.total # 0 /\ Steady(r)
+                                  /\ \E j \in Sh(i) \ {s} : FitsOn(i, j, r)
+     /\ ~MovedAway(i, o, s)}
+C03_HeadNotRelieved(i, o) ==
+  {s \in Sh(i) :
+     /\ PlainWorld(i) /\ i.opts.maxHead # 0
+     /\ \A k \in Sh(i) : i.shards[k].proc < i.opts.maxProc
+     /\ i.shards[s].head * 10 >= i.opts.maxHead * 11
+     /\ \A k \in Sh(i) \ {s} : i.shards[k].head * 10 < i.opts.maxHead * 11
+     /\ SumRecs({r \in RepRecs(i, s) : ~TooBigH(i, r) /\ Steady(r)}, "series") > i.opts.maxHead
+     /\ \E r \in RepRecs(i, s) : /\ ~TooBigH(i, r) /\ Steady(r)
+                                  /\ \E j \in Sh(i) \ {s} : FitsOn(i, j, r)
+     /\ ~MovedAway(i, o, s)}
+C03(i, o) ==
+  C03_Unplaced(i, o)
+  \cup {[f |-> "overloaded-shard-not-relieved", k |-> s, limit |-> "process"] : s \in C03_ProcNotRelieved(i, o)}
+  \cup {[f |-> "overloaded-shard-not-relieved", k |-> s, limit |-> "head"] : s \in C03_HeadNotRelieved(i, o)}
 
 -----------------------------------------------------------------------------
 (* C20, last sentence: the counts of the successful probe are the estimate the target is first assigned with.  A target *)
